@@ -354,3 +354,199 @@ Proof.
   - intros x Hx. pose proof (hi_in _ _ _ H' x ltac:(unfold all_regs; apply in_or_app; right; apply in_or_app; right; exact Hx)) as Ix.
     unfold in_msg in Ix. destruct (in_seg_elim _ _ _ _ Ix) as (_ & _ & _ & _ & Y5). exact Y5.
 Qed.
+
+(* ------------------------------------------------------------------ the success half *)
+(* what readPtr charges for the object *)
+Definition read_cost (h : Ptr) : Z :=
+  match p_kind h with KStruct => totalSize (p_size h) | KList => list_readSize h | KIface => 0 end.
+
+Lemma list_readSize_eq a b : p_valid a = p_valid b -> p_size a = p_size b -> p_len a = p_len b -> list_readSize a = list_readSize b.
+Proof. intros E1 E2 E3. unfold list_readSize. now rewrite E1, E2, E3. Qed.
+
+(* [read_resolved_total]: with a non-zero depth limit and a read limit that covers the object,
+   readPtr on a pointer to table object [h] returns the handle of [h] and charges its size *)
+Lemma read_resolved_total strict (ms : segs) rl sid off h raw depth :
+  resolves_to ms sid off (p_seg h) (obj_start h) raw ->
+  p_valid h = true -> good ms h -> tag_ok ms h -> raw_of h = Ok raw ->
+  (p_kind h = KStruct -> os_isZero (p_size h) = false) ->
+  seg_len ms (p_seg h) <= 4294967288 -> depth <> 0 -> read_cost h <= rl ->
+  readPtr strict ms rl sid (nth (Z.to_nat sid) ms []) off depth = (Ok (handle_of h depth), rl - read_cost h).
+Proof.
+  intros RT Hv (Sh & Hseg & Hin & Hoff) Htag Hraw Hnz Hsl Hd Hrl.
+  destruct (in_seg_elim _ _ _ _ Hin) as (G1 & G2 & G3 & G4 & G5). unfold seg_len in *.
+  unfold handle_of, read_cost in *. unfold raw_of, shape_ok in *.
+  destruct (p_kind h) eqn:EK.
+  - (* struct *)
+    destruct Sh as (Hw & Hc & Hl & Hb). specialize (Hnz eq_refl).
+    destruct (struct_pointer_roundtrip 0 (p_size h) ltac:(unfold off_ok; lia) Hw) as (raw' & Er & Rw & Rt & Ro & Rs).
+    rewrite Er in Hraw. cbn [of_opt_panic] in Hraw. apply Ok_inj in Hraw. subst raw'.
+    assert (OS : obj_start h = p_off h) by (unfold obj_start; now rewrite Hc).
+    assert (RS : totalSize (p_size h) <= r_size (obj_reg h)).
+    { unfold obj_reg, obj_bytes. rewrite EK. cbn [r_size]. rewrite (HeapInv.totalSize_wf _ Hw). destruct Hw as (Hd1 & Hd2 & Hd3). unfold padToWord, u32. lia. }
+    rewrite (resolved_read_struct strict ms rl sid off (p_seg h) (obj_start h) raw depth RT Rt); rewrite ?Rs; auto.
+    + rewrite OS, Hc, Hl, Hb. reflexivity.
+    + apply regionInBounds_true; unfold maxSegmentSize; lia.
+  - (* list *)
+    destruct Sh as (Hn & [(Hc & Hk)|(Hc & Hb & Hw & Ht)]).
+    + (* plain list *)
+      assert (OS : obj_start h = p_off h) by (unfold obj_start; now rewrite Hc).
+      assert (LR : exists et es, list_raw h = Ok (rawListPointer 0 et (p_len h)) /\ 0 <= et < 7 /\
+                     elementSize (rawListPointer 0 et (p_len h)) = Some es /\
+                     (et = 1 -> p_bit h = true /\ p_size h = mkOS 0 0) /\ (et <> 1 -> p_bit h = false /\ p_size h = es) /\
+                     (if et =? 1 then bitListSize (p_len h) else timesUnchecked (totalSize es) (p_len h)) <= padToWord (list_allocSize h)).
+      { assert (ES : forall et, 0 <= et < 8 -> elementSize (rawListPointer 0 et (p_len h)) =
+                       (if et =? 0 then Some (mkOS 0 0) else if et =? 1 then Some (mkOS 0 0)
+                        else if et =? 2 then Some (mkOS 1 0) else if et =? 3 then Some (mkOS 2 0)
+                        else if et =? 4 then Some (mkOS 4 0) else if et =? 5 then Some (mkOS 8 0)
+                        else if et =? 6 then Some (mkOS 0 1) else None)).
+        { intros et He. destruct (list_pointer_roundtrip 0 et (p_len h) ltac:(unfold off_ok; lia) He Hn) as (_ & _ & _ & L4 & _).
+          cbv zeta in L4. unfold elementSize. cbv zeta. rewrite L4. reflexivity. }
+        assert (PL : forall d pc, p_bit h = false -> p_size h = mkOS d pc -> 0 <= d <= 8 -> (pc = 0 \/ pc = 1 /\ d = 0) ->
+                     timesUnchecked (totalSize (mkOS d pc)) (p_len h) <= padToWord (list_allocSize h)).
+        { intros d pc Hb Hsz Hdd Hp. rewrite (list_alloc_plain h d pc) by auto.
+          assert (T : totalSize (mkOS d pc) = d + 8 * pc) by (unfold totalSize, pointerSize, u32; cbn [DataSize PointerCount]; lia).
+          rewrite T. assert (K : 0 <= (d + 8 * pc) * p_len h <= 4294967288) by nia.
+          unfold timesUnchecked, u32. set (k := (d + 8 * pc) * p_len h) in *.
+          replace ((d + 8 * pc) * (p_len h mod 4294967296)) with k by (unfold k; rewrite Z.mod_small by lia; reflexivity).
+          clearbody k. unfold padToWord, u32. lia. }
+        destruct Hk as [[Hb Hsz]|[Hb Hsz]].
+        - exists 1, (mkOS 0 0). unfold list_raw, list_allocSize. rewrite Hv, Hc, Hb. cbn [negb].
+          split; [reflexivity|]. split; [lia|]. split; [rewrite ES by lia; reflexivity|]. split; [auto|]. split; [lia|].
+          change (1 =? 1) with true. cbv iota. unfold padToWord, bitListSize, u32. lia.
+        - destruct Hsz as [Hsz|(d & Hsz & Hdv)].
+          + exists 6, (mkOS 0 1). unfold list_raw. rewrite Hv, Hc, Hb, Hsz. cbn [negb PointerCount DataSize].
+            change ((1 =? 1) && (0 =? 0)) with true. cbv iota.
+            split; [reflexivity|]. split; [lia|]. split; [rewrite ES by lia; reflexivity|]. split; [lia|]. split; [auto|].
+            change (6 =? 1) with false. cbv iota. apply (PL 0 1); auto; lia.
+          + assert (LRd : list_raw h = Ok (rawListPointer 0 (if d =? 0 then 0 else if d =? 1 then 2 else if d =? 2 then 3 else if d =? 4 then 4 else 5) (p_len h))).
+            { unfold list_raw. rewrite Hv, Hc, Hb, Hsz. cbn [negb PointerCount DataSize].
+              change (0 =? 1) with false. rewrite Bool.andb_false_l. change (0 =? 0) with true. cbn [negb]. cbv iota zeta.
+              destruct Hdv as [->|[->|[->|[->| ->]]]]; reflexivity. }
+            destruct Hdv as [->|[->|[->|[->| ->]]]]; cbn [Z.eqb] in LRd.
+            * exists 0, (mkOS 0 0). split; [exact LRd|]. split; [lia|]. split; [rewrite ES by lia; reflexivity|]. split; [lia|]. split; [auto|]. change (0 =? 1) with false. cbv iota. apply (PL 0 0); auto; lia.
+            * exists 2, (mkOS 1 0). split; [exact LRd|]. split; [lia|]. split; [rewrite ES by lia; reflexivity|]. split; [lia|]. split; [auto|]. change (2 =? 1) with false. cbv iota. apply (PL 1 0); auto; lia.
+            * exists 3, (mkOS 2 0). split; [exact LRd|]. split; [lia|]. split; [rewrite ES by lia; reflexivity|]. split; [lia|]. split; [auto|]. change (3 =? 1) with false. cbv iota. apply (PL 2 0); auto; lia.
+            * exists 4, (mkOS 4 0). split; [exact LRd|]. split; [lia|]. split; [rewrite ES by lia; reflexivity|]. split; [lia|]. split; [auto|]. change (4 =? 1) with false. cbv iota. apply (PL 4 0); auto; lia.
+            * exists 5, (mkOS 8 0). split; [exact LRd|]. split; [lia|]. split; [rewrite ES by lia; reflexivity|]. split; [lia|]. split; [auto|]. change (5 =? 1) with false. cbv iota. apply (PL 8 0); auto; lia. }
+      destruct LR as (et & es & L1 & L2 & Ees & L3 & L4 & Lsz). rewrite L1 in Hraw. apply Ok_inj in Hraw. subst raw.
+      destruct (list_pointer_roundtrip 0 et (p_len h) ltac:(unfold off_ok; lia) ltac:(lia) Hn) as (Rw & Rt & Ro & Rl & Rn).
+      cbv zeta in *. set (raw := rawListPointer 0 et (p_len h)) in *.
+      set (lsize := if et =? 1 then bitListSize (p_len h) else timesUnchecked (totalSize es) (p_len h)) in *.
+      assert (TL : totalListSize raw = Some (Some lsize)).
+      { unfold totalListSize. cbv zeta. rewrite Rl, Rn, Ees. unfold lsize. destruct (et =? 1) eqn:E1; [reflexivity|].
+        destruct (et =? 7) eqn:E7; [lia|reflexivity]. }
+      assert (L0 : 0 <= lsize) by (unfold lsize, bitListSize, timesUnchecked, u32; destruct (et =? 1); lia).
+      assert (RS : r_size (obj_reg h) = padToWord (list_allocSize h)) by (unfold obj_reg, obj_bytes; rewrite EK; reflexivity).
+      rewrite (resolved_read_list strict ms rl sid off (p_seg h) (obj_start h) raw depth lsize es RT Rt ltac:(lia) TL Ees); auto.
+      * rewrite Rl, Rn, OS, Hc. destruct (et =? 1) eqn:E1.
+        -- destruct (L3 ltac:(lia)) as [Hb Hsz]. cbn [p_size p_bit]. rewrite Hb, Hsz. f_equal. f_equal.
+           apply list_readSize_eq; cbn [p_valid p_size p_len]; auto.
+        -- destruct (L4 ltac:(lia)) as [Hb Hsz]. cbn [p_size p_bit]. rewrite Hb, Hsz. f_equal. f_equal.
+           apply list_readSize_eq; cbn [p_valid p_size p_len]; auto.
+      * apply regionInBounds_true; unfold maxSegmentSize; lia.
+      * rewrite Rl, Rn. destruct (et =? 1) eqn:E1.
+        -- destruct (L3 ltac:(lia)) as [Hb Hsz]. erewrite list_readSize_eq; [exact Hrl| | |]; cbn [p_valid p_size p_len]; auto.
+        -- destruct (L4 ltac:(lia)) as [Hb Hsz]. erewrite list_readSize_eq; [exact Hrl| | |]; cbn [p_valid p_size p_len]; auto.
+    + (* composite list *)
+      destruct (Htag EK Hc) as (tag & Etag & Wtag).
+      assert (W0 : 0 <= wc_of h) by (unfold wc_of; destruct Hw as (Hd' & Hm & Hp); lia).
+      assert (K0 : 0 <= p_len h * wc_of h) by nia.
+      assert (TW : totalWordCount (p_size h) = Some (wc_of h)).
+      { unfold totalWordCount, dataWordCount, wc_of. destruct Hw as (Hd' & Hm & Hp). rewrite Hm. cbn [Z.eqb]. f_equal. apply s32_id. lia. }
+      assert (S32 : s32 (p_len h * wc_of h) = p_len h * wc_of h) by (apply s32_id; lia).
+      unfold list_raw in Hraw. rewrite Hv, Hc, TW in Hraw. cbn [negb] in Hraw. rewrite S32 in Hraw. apply Ok_inj in Hraw. subst raw.
+      destruct (list_pointer_roundtrip 0 7 (p_len h * wc_of h) ltac:(unfold off_ok; lia) ltac:(lia) ltac:(lia)) as (Rw & Rt & Ro & Rl & Rn).
+      cbv zeta in *. set (raw := rawListPointer 0 7 (p_len h * wc_of h)) in *.
+      destruct (struct_pointer_roundtrip (p_len h) (p_size h) ltac:(unfold off_ok; lia) Hw) as (tag' & Et' & Tw & Tt & To & Ts).
+      rewrite Etag in Et'. assert (tag' = tag) by congruence. subst tag'.
+      destruct RT as (base & val & R & Vw & Vt & Vs & Vl & Vn & Ve).
+      unfold obj_start in *. rewrite Hc in *.
+      assert (RSz : r_size (obj_reg h) = 8 + 8 * (p_len h * wc_of h)).
+      { unfold obj_reg, obj_bytes. rewrite EK. cbn [r_size]. rewrite (list_alloc_comp h) by (auto; lia). unfold padToWord, u32. lia. }
+      rewrite RSz in *.
+      unfold readPtr. rewrite (R strict).
+      assert (Hv0 : (val =? 0) = false).
+      { destruct (val =? 0) eqn:E; auto. assert (val = 0) by lia. subst val. rewrite Rt in Vt. cbv in Vt. discriminate. }
+      rewrite Hv0. destruct (depth =? 0) eqn:ED; [lia|]. cbv zeta. rewrite Vt, Rt.
+      change (listPointer =? structPointer) with false. change (listPointer =? listPointer) with true. cbv iota.
+      unfold readListPtr. rewrite Ve.
+      assert (TL : totalListSize val = Some (Some (8 * (p_len h * wc_of h + 1)))).
+      { unfold totalListSize. cbv zeta. rewrite Vl, Vn, Rl, Rn. change (7 =? 1) with false. change (7 =? 7) with true. cbv iota.
+        rewrite (s32_id (p_len h * wc_of h + 1)) by lia. unfold times. cbv zeta.
+        destruct ((8 * (p_len h * wc_of h + 1) >? maxSegmentSize) || (8 * (p_len h * wc_of h + 1) <? 0)) eqn:EB; [unfold maxSegmentSize in EB; lia|reflexivity]. }
+      rewrite TL. rewrite regionInBounds_true by (unfold maxSegmentSize; lia). cbn [negb]. cbv zeta.
+      rewrite Vl, Rl. change (7 =? 7) with true. cbv iota.
+      rewrite (read_of_word_at _ _ _ _ Wtag) by lia. cbn [bind].
+      unfold addSize. cbv zeta. destruct (p_off h - 8 + 8 >? maxSegmentSize) eqn:EM; [unfold maxSegmentSize in EM; lia|].
+      rewrite Tt. change (structPointer =? structPointer) with true. cbn [negb]. cbv zeta.
+      rewrite Ts, To. rewrite (s32_id (p_len h)) by lia.
+      assert (Hneg : (p_len h <? 0) = false) by lia. rewrite Hneg, Bool.andb_false_r.
+      rewrite (totalSize_wf _ Hw). fold (wc_of h).
+      assert (TM : times (8 * wc_of h) (p_len h) = Some (8 * (p_len h * wc_of h))).
+      { unfold times. cbv zeta. replace (8 * wc_of h * p_len h) with (8 * (p_len h * wc_of h)) by ring.
+        destruct ((8 * (p_len h * wc_of h) >? maxSegmentSize) || (8 * (p_len h * wc_of h) <? 0)) eqn:EB; [unfold maxSegmentSize in EB; lia|reflexivity]. }
+      rewrite TM. rewrite regionInBounds_true by (unfold maxSegmentSize; lia). cbn [negb].
+      cbn [p_seg p_off p_len p_size p_comp p_bit].
+      set (lp := mkPtr true (p_seg h) (p_off h - 8 + 8) (p_len h) (p_size h) 0 KList true false false).
+      assert (LRS : list_readSize lp = list_readSize h) by (apply list_readSize_eq; cbn [lp p_valid p_size p_len]; auto).
+      rewrite LRS. unfold canRead. destruct (rl >=? list_readSize h) eqn:EC; [|lia].
+      rewrite ?Hc, ?Hb. replace (p_off h - 8 + 8) with (p_off h) by lia. reflexivity.
+  - destruct Sh.
+Qed.
+
+(* [read_slot_total]: the success half of [read_slot].  With a non-zero depth limit and a read
+   limit that covers every table object, Segment.readPtr at any pointer slot of any table object
+   or at the root succeeds; for a slot holding the words of object [h] it returns the handle of
+   [h] and charges [read_cost h] *)
+Theorem read_slot_total strict m objs pads q rl depth :
+  hinv m objs pads -> In q ((0, 0) :: flat_map slots objs) ->
+  depth <> 0 -> 0 <= rl -> (forall h, In h objs -> read_cost h <= rl) ->
+  exists p rl', readPtr strict (bm_data m) rl (fst q) (nth (Z.to_nat (fst q)) (bm_data m) []) (snd q) depth = (Ok p, rl') /\
+    (p = nullPtr /\ rl' = rl \/ p = empty_handle q depth /\ rl' = rl \/
+     (exists h, In h objs /\ p = handle_of h depth /\ rl' = rl - read_cost h) \/
+     (exists idx, 0 <= idx < 4294967296 /\ p = mkPtr true (fst q) 0 idx (mkOS 0 0) 0 KIface false false false /\ rl' = rl)).
+Proof.
+  intros H Hq Hd Hrl0 Hrl. destruct (slot_geometry _ _ _ _ H Hq) as (Q1 & Q2 & Q3 & Q4 & _).
+  pose proof (hi_small _ _ _ H (fst q)) as Hsq. unfold maxSegmentSize in Hsq.
+  assert (Near : forall w, word_at (bm_data m) (fst q) (snd q) = Some w -> w mod 4 = 0 \/ w mod 4 = 3 ->
+            forall st, resolveFarPointer st (bm_data m) (fst q) (nth (Z.to_nat (fst q)) (bm_data m) []) (snd q) =
+                       Ok (fst q, nth (Z.to_nat (fst q)) (bm_data m) [], snd q + 8, w)).
+  { intros w W Hw st. unfold resolveFarPointer. rewrite (read_of_word_at _ _ _ _ W) by lia. cbn [bind]. cbv zeta.
+    assert (PT : pointerType w = 0 \/ pointerType w = 3) by (unfold pointerType; cbv zeta; destruct Hw as [-> | ->]; auto).
+    assert (PD : (pointerType w =? doubleFarPointer) = false) by (unfold doubleFarPointer; lia).
+    assert (PF : (pointerType w =? farPointer) = false) by (unfold farPointer; lia).
+    rewrite PD, PF.
+    unfold addSize. cbv zeta. destruct (snd q + 8 >? maxSegmentSize) eqn:E; [unfold maxSegmentSize in E; lia|]. reflexivity. }
+  destruct (depth =? 0) eqn:ED; [lia|].
+  destruct (hi_slots _ _ _ H q Hq) as [S|[S|[(h & ps & raw & oldlen & Hh & Ips & Er & Hnz & Pl)|(idx & Hi & S)]]].
+  - exists nullPtr, rl. split; [|left; auto]. unfold readPtr. rewrite (Near 0 S (or_introl eq_refl) strict). reflexivity.
+  - exists (empty_handle q depth), rl. split; [|right; left; auto].
+    unfold readPtr. rewrite (Near _ S (or_introl eq_refl) strict).
+    change (empty_struct_word =? 0) with false. cbv iota. rewrite ED. cbv zeta.
+    change (pointerType empty_struct_word =? structPointer) with true. cbv iota.
+    unfold readStructPtr. change (ptr_offset empty_struct_word) with (-1). change (structSize empty_struct_word) with (mkOS 0 0).
+    assert (EE : element (snd q + 8) (-1) 8 = Some (snd q)) by (apply element_spec; unfold maxSegmentSize; lia). rewrite EE.
+    change (totalSize (mkOS 0 0)) with 0. rewrite regionInBounds_true by (unfold maxSegmentSize; rewrite ?nth_bm_data; lia). cbn [negb].
+    unfold canRead, struct_readSize. cbn [p_valid p_size p_seg p_off]. change (totalSize (mkOS 0 0)) with 0.
+    destruct (rl >=? 0) eqn:EC; [|lia]. unfold empty_handle. replace (rl - 0) with rl by lia. reflexivity.
+  - destruct (hi_good _ _ _ H h Hh) as [V G]. pose proof (hi_tags _ _ _ H h Hh) as T.
+    destruct (obj_decode (bm_data m) h V G T Hnz) as (raw' & Er' & Rw & _). rewrite Er in Er'. apply Ok_inj in Er'. subst raw'.
+    pose proof G as (_ & Gs & Gi & Go). destruct (in_seg_elim _ _ _ _ Gi) as (T1 & T2 & T3 & T4 & T5).
+    rewrite seg_len_bm in T4. pose proof (hi_small _ _ _ H (p_seg h)) as Hsh. unfold maxSegmentSize in Hsh.
+    exists (handle_of h depth), (rl - read_cost h). split; [|right; right; left; exists h; auto].
+    apply (read_resolved_total strict (bm_data m) rl (fst q) (snd q) h raw depth); auto.
+    + apply (placed_resolves_to (bm_data m) (fst q) (snd q) (p_seg h) (obj_start h) raw oldlen ps); auto; try lia.
+      * apply raw_word_ok. exact Rw.
+      * rewrite zlen_bm. pose proof (hi_nsegs _ _ _ H). lia.
+      * intros i Hi. rewrite seg_len_bm. pose proof (hi_small _ _ _ H i) as X. unfold maxSegmentSize in X. exact X.
+      * intros x Hx. pose proof (hi_in _ _ _ H x ltac:(unfold all_regs; apply in_or_app; right; apply Ips; exact Hx)) as Ix.
+        unfold in_msg in Ix. destruct (in_seg_elim _ _ _ _ Ix) as (_ & _ & _ & _ & Y5). exact Y5.
+    + rewrite seg_len_bm. lia.
+  - exists (mkPtr true (fst q) 0 idx (mkOS 0 0) 0 KIface false false false), rl. split; [|right; right; right; exists idx; auto].
+    destruct (interface_pointer_roundtrip idx Hi) as (I1 & I2 & I3 & I4). cbv zeta in *.
+    assert (Hm : rawInterfacePointer idx mod 4 = 3) by (rewrite rawInterfacePointer_sum by assumption; lia).
+    assert (Hv0 : (rawInterfacePointer idx =? 0) = false) by (rewrite rawInterfacePointer_sum by assumption; lia).
+    unfold readPtr. rewrite (Near _ S (or_intror Hm) strict). rewrite Hv0, ED. cbv zeta. rewrite I2.
+    change (otherPointer =? structPointer) with false. change (otherPointer =? listPointer) with false.
+    change (otherPointer =? otherPointer) with true. cbv iota. rewrite I3, I4. reflexivity.
+Qed.
